@@ -25,6 +25,7 @@ Line protocol of the C20 model (one s-expression in, one out).
   (parsecom STR)            -> (ok COM) | err
   (eval E STATE)            -> (int n) | (bool T|F) | none
   (interp FUEL COM STATE (x ...)) -> (ok (n ...)) | stuck | fuel
+  (hist COM (OP ...))       -> ((STR ...) ...)     OP = (setpre E) | (wp E) | (vcs) | (print): ONE object, printed VCs of get_vcs after every operation
 -/
 open Holpy Holpy.C20
 
@@ -133,6 +134,13 @@ def valTo : Option Val → Sexp
   | some (.bool b) => .list [.atom "bool", Sexp.ofBool b]
   | none => .atom "none"
 
+def opOf : Sexp → Option Op
+  | .list [.atom "setpre", e] => do some (.setPre (← exprOf e))
+  | .list [.atom "wp", e] => do some (.wp (← exprOf e))
+  | .list [.atom "vcs"] => some .vcs
+  | .list [.atom "print"] => some .print
+  | _ => none
+
 def handle (line : String) : String :=
   match Sexp.parse line with
   | some (.list [.atom "vcs", c, p, q]) =>
@@ -214,6 +222,11 @@ def handle (line : String) : String :=
       | .stuck => "stuck"
       | .fuel => "fuel"
     | _, _, _ => "bad-op"
+  | some (.list [.atom "hist", c, .list ops]) =>
+    match comOf c, ops.mapM opOf with
+    | some c, some ops =>
+      toString (Sexp.list ((vcsTrace (ACom.init c) ops).map fun vcs => .list (vcs.map fun v => .atom (enc (pp v)))))
+    | _, _ => "bad-op"
   | _ => "bad-op"
 
 end Holpy.C20.Driver
